@@ -56,6 +56,11 @@ def sid_to_sid(sid: str | Sid) -> Sid:
         new_sid._init(string=string, type=_type, fields=fields)
         return new_sid
 
+    # a string that could not be typed cannot be updated by a query: the query stays in the string
+    elif string and not _type:
+        new_sid._init(string="{}?{}".format(string, query), type=_type, fields=fields)
+        return new_sid
+
     # applying the query (applying the query may update the type)
     else:
         string, _type, fields = apply_query(string, query=query, type=_type, fields=fields)
